@@ -1,9 +1,154 @@
-//! C03 - see l1.rs (pair level scenarios)
+//! C03 - pair level scenarios in l1.rs; node level (replay k housekeeping rounds after the first delivery) here
+use std::collections::BTreeMap;
+
 use super::{
     chooser::Chooser,
     l1,
-    runner::{RunCtx, RunOut, Scenario, Tier},
+    mesh::{self, finish, panic_violation},
+    runner::{RunCtx, RunOut, Scenario, Tier, Violation},
+    world::{Cause, Origin, Step, StepKind, World},
 };
+
+struct Ns {
+    /// housekeeping rounds seen per node
+    hk: Vec<u64>,
+    next_hk: Vec<Option<i64>>,
+    /// wire id -> (receiving node, rounds of that node before the step, frames written)
+    deliveries: BTreeMap<usize, Vec<(usize, u64, usize)>>,
+}
+
+fn after(w: &mut World, s: &mut Ns, st: &Step) -> Result<(), Violation> {
+    if let Some(v) = panic_violation(w, st, "C03") {
+        return Err(v);
+    }
+    let i = match st.node {
+        Some(i) => i,
+        None => return Ok(()),
+    };
+    if let StepKind::Deliver { wire, accepted: true, .. } = st.kind {
+        s.deliveries.entry(wire).or_default().push((i, s.hk[i], st.writes));
+    }
+    // the datagram of a step is handled before the housekeeping of the same step
+    let nh = w.snapshot(i).map(|x| x.next_housekeep);
+    if let (Some(a), Some(b)) = (s.next_hk[i], nh) {
+        if a != b {
+            s.hk[i] += 1;
+        }
+    }
+    s.next_hk[i] = nh;
+    Ok(())
+}
+
+fn drive(w: &mut World, s: &mut Ns, until: u64) -> Result<(), Violation> {
+    while let Some(st) = w.step(until) {
+        after(w, s, &st)?;
+    }
+    Ok(())
+}
+
+/// Node level: every captured data datagram is replayed k = 0..5 housekeeping rounds after its first delivery; a
+/// replayed first handshake message (which anybody can replay, and which opens a handshake next to the established
+/// connection) must not stop the window from moving.
+fn node_scenario(w: &mut World, _ctx: &RunCtx, states: &mut Vec<u64>) -> Result<(), Violation> {
+    let k = w.add_key(None);
+    let fam = w.ch.choose("addr_family", 2) as u8;
+    let cipher = *w.ch.pick("cipher", &["aes128", "aes256", "chacha20"]);
+    for i in 0..2 {
+        let mut c = mesh::tun_node(i);
+        c.key = k;
+        c.algorithms = vec![cipher.to_string()];
+        c.tick_phase_ms = w.ch.choose("tick_phase", 1000) as u64;
+        if i == 1 {
+            c.peers.push(mesh::node_text(0, fam));
+        }
+        w.add_node(c, fam);
+    }
+    let mut s = Ns { hk: vec![0; 2], next_hk: vec![None; 2], deliveries: BTreeMap::new() };
+    for i in 0..2 {
+        let st = w.start_node(i);
+        after(w, &mut s, &st)?;
+    }
+    let mut err = None;
+    let ok = mesh::run_until_connected(w, &[(0, 1), (1, 0)], 8_000, |w, st| after(w, &mut s, st)).unwrap_or_else(|e| {
+        err = Some(e);
+        false
+    });
+    if let Some(e) = err {
+        return Err(e);
+    }
+    if !ok {
+        w.count("c03_node_level_not_connected");
+        return Ok(());
+    }
+    let until = w.now_ms + 1_500 + w.ch.choose("settle_ms", 70_000) as u64;
+    drive(w, &mut s, until)?;
+    states.push(mesh::abstract_state(w));
+    // the first handshake message node 1 sent to node 0
+    let ping: Option<Vec<u8>> = w.wire.iter().find(|r| r.from_node == Some(1) && matches!(r.origin, Origin::Genuine) && World::is_init_datagram(&r.data)).map(|r| (*r.data).clone());
+    let ops = 4 + w.ch.choose("ops", 12);
+    let mut counter = 0u32;
+    for _ in 0..ops {
+        let (a, b) = if w.ch.chance("reverse_direction", 500) { (0, 1) } else { (1, 0) };
+        if !(w.is_connected(a, b) && w.is_connected(b, a)) {
+            break;
+        }
+        counter += 1;
+        let m = mesh::marker(w, counter);
+        let f = mesh::ipv4_packet(mesh::tun_ip(a), mesh::tun_ip(b), &m);
+        let first_wire = w.wire.len();
+        let at = w.now_ms + 1 + w.ch.choose("gap_ms", 900) as u64;
+        w.schedule_frame(at, a, f.clone());
+        drive(w, &mut s, at + 80)?;
+        let id = match (first_wire..w.wire.len()).find(|id| {
+            let r = &w.wire[*id];
+            r.from_node == Some(a) && matches!(r.cause, Cause::Dev(_)) && matches!(r.origin, Origin::Genuine) && !World::is_init_datagram(&r.data)
+        }) {
+            Some(id) => id,
+            None => continue,
+        };
+        let first = match s.deliveries.get(&id).and_then(|v| v.iter().find(|d| d.0 == b && d.2 > 0)).copied() {
+            Some(d) => d,
+            None => continue,
+        };
+        // fault: the captured first handshake message, replayed to node 0 from node 1's address
+        if b == 0 && w.ch.chance("replayed_first_handshake_message", 300) {
+            if let Some(p) = &ping {
+                let (src, dst) = (w.nodes[1].addr, w.nodes[0].addr);
+                let delay = 1 + w.ch.choose("ping_delay_ms", 1500) as u64;
+                w.inject(src, dst, p.clone(), delay, "replayed-handshake-ping");
+                w.count("c03_replayed_handshake_pings");
+            }
+        }
+        let k_rounds = w.ch.choose("rounds_before_replay", 6) as u64;
+        let until = w.now_ms + k_rounds * 2000 + w.ch.choose("replay_phase_ms", 2000) as u64;
+        drive(w, &mut s, until)?;
+        let data = (*w.wire[id].data).clone();
+        let (src, dst) = (w.wire[id].src, w.wire[id].dst);
+        let rid = w.inject(src, dst, data, 1, "replayed-data");
+        let until = w.now_ms + 60;
+        drive(w, &mut s, until)?;
+        if let Some((_, rounds_before, writes)) = s.deliveries.get(&rid).and_then(|v| v.iter().find(|d| d.0 == b)).copied() {
+            let rounds = rounds_before - first.1;
+            w.count("c03_node_level_replays_checked");
+            if rounds >= 2 {
+                w.count("c03_node_level_replays_after_two_rounds");
+                if writes > 0 {
+                    return Err(Violation::new("replay-window", "replay-delivered-after-two-rounds", format!("n{} wrote the payload of a datagram to its interface again that was replayed {} housekeeping rounds after its first delivery (cipher {})", b, rounds, cipher)));
+                }
+            }
+        }
+    }
+    states.push(mesh::abstract_state(w));
+    Ok(())
+}
+
+fn node_level(seed: u64, ch: Chooser, ctx: &RunCtx) -> RunOut {
+    let mut w = mesh::new_world(seed, ch, ctx);
+    let mut states = vec![];
+    let res = node_scenario(&mut w, ctx, &mut states);
+    let nontrivial = w.counters.get("c03_node_level_replays_checked").copied().unwrap_or(0) > 0;
+    finish(w, res, nontrivial, states)
+}
 
 pub struct C03;
 
@@ -13,7 +158,12 @@ impl Scenario for C03 {
     }
 
     fn run(&self, seed: u64, ch: Chooser, ctx: &RunCtx) -> RunOut {
-        l1::c03(seed, ch, ctx)
+        // after the schedule sweep every tenth run is a node-level run
+        if ctx.index >= l1::c03_sweep_size(ctx.tier) && ctx.index % 10 == 9 {
+            node_level(seed, ch, ctx)
+        } else {
+            l1::c03(seed, ch, ctx)
+        }
     }
 
     fn budget(&self, tier: Tier) -> (u64, u64) {
@@ -24,11 +174,11 @@ impl Scenario for C03 {
     }
 
     fn rule(&self) -> &'static str {
-        "an established pair of real PeerCrypto objects (cipher aes128/aes256/chacha20); the first 7^5 runs (thorough: 7^7) are a seed-indexed sweep over all schedules of that length over {seal next, deliver datagram 1..5 (again), tick receiver}; the remaining runs are random histories of 20-400 steps that add sender ticks, delivery/loss of rotation messages and fast-forwards of 100-300 ticks across key rotations; oracle computed from the recorded history only: a delivered genuine datagram with counter c under key generation g must be rejected iff a datagram with counter >= c was accepted under g before the receiver's previous tick, and accepted otherwise (while the receiver still holds g under that key id), opening to the sealed bytes. Non-trivial: at least one delivery was checked. Distinct = distinct schedule hashes."
+        "an established pair of real PeerCrypto objects (cipher aes128/aes256/chacha20); the first 7^5 runs (thorough: 7^7) are a seed-indexed sweep over all schedules of that length over {seal next, deliver datagram 1..5 (again), tick receiver}; the remaining runs are random histories of 20-400 steps that add sender ticks, delivery/loss of rotation messages and fast-forwards of 100-300 ticks across key rotations; oracle computed from the recorded history only: a delivered genuine datagram with counter c under key generation g must be rejected iff a datagram with counter >= c was accepted under g before the receiver's previous tick, and accepted otherwise (while the receiver still holds g under that key id), opening to the sealed bytes. Every tenth run after the sweep is a node-level run: two real nodes, every captured data datagram is replayed 0-5 housekeeping rounds after its first delivery (in 30 % of the cases after the captured first handshake message was replayed to the receiver as well, which opens a handshake next to the established connection); a replay that arrives two or more housekeeping rounds of the receiver after the first delivery must not be written to the interface again. Non-trivial: at least one delivery was checked. Distinct = distinct schedule hashes."
     }
 
     fn expected_probes(&self) -> Vec<&'static str> {
-        vec!["c03_expected_reject", "c03_expected_accept", "c03_runs_across_key_rotation", "c03_key_generation_gone", "c03_fast_forwards"]
+        vec!["c03_expected_reject", "c03_expected_accept", "c03_runs_across_key_rotation", "c03_key_generation_gone", "c03_fast_forwards", "c03_node_level_replays_after_two_rounds", "c03_replayed_handshake_pings"]
     }
 
     fn exhaustive(&self, tier: Tier, runs: u64) -> bool {
